@@ -268,7 +268,22 @@ func runScenario(sc scenario, judge bool) outcome {
 		key := fmt.Sprintf("wait=%v", sc.Wait)
 		if m < 0 {
 			// the senders may have run dry before the silence could show
-			if len(after) > sc.G {
+			if len(after) > sc.G && after[len(after)-1]-tOffer+50*time.Microsecond < w {
+				// everything that was still sent went out within less than the announced wait and
+				// then the senders had nothing left: nothing contradicts the silence, the further
+				// transmissions count as stragglers (judged by the straggler bound below)
+				k := 0
+				for _, u := range after {
+					if u > tIn {
+						k++
+					}
+				}
+				out.stragglers = k
+				stragglerHist[k]++
+				if k > sc.G {
+					out.exceeded = true
+				}
+			} else if len(after) > sc.G {
 				out.ignored = true
 				if judge {
 					r.Violate("busy.ignored", attrs, map[string]interface{}{"scenario": sig, "transmissions_after_busy": len(after), "first_gaps_ms": gaps(tIn, after, 12)},
